@@ -103,6 +103,7 @@ type Exec struct {
 	concrete []uint64 // concrete-mode input vector (nil in symbolic mode)
 	concPos  int
 	isConcrete bool
+	initRoot   *ssa.Function
 }
 
 func (ex *Exec) pos() string {
@@ -582,10 +583,12 @@ func (ex *Exec) ensureInit(pkg *ssa.Package) {
 		return
 	}
 	ex.inInit++
-	savedCur, savedFr := ex.cur, ex.curFr
+	savedCur, savedFr, savedRoot := ex.cur, ex.curFr, ex.initRoot
+	ex.initRoot = initFn
 	func() {
 		defer func() {
 			ex.inInit--
+			ex.initRoot = savedRoot
 			ex.cur, ex.curFr = savedCur, savedFr
 			if r := recover(); r != nil {
 				switch r.(type) {
@@ -629,7 +632,7 @@ func (ex *Exec) callSSA(fn *ssa.Function, args []Value, env []Value, caller *fra
 	if info.redirect != nil {
 		fn = info.redirect
 	}
-	if ex.inInit > 0 && fn.Name() == "init" && fn.Signature.Recv() == nil && fn.Parent() == nil && len(args) == 0 && ex.depth > 0 {
+	if ex.inInit > 0 && fn.Name() == "init" && fn.Signature.Recv() == nil && fn.Parent() == nil && len(args) == 0 && fn != ex.initRoot {
 		// dependency's init(): initialised lazily on first touch instead
 		return nil
 	}
@@ -762,6 +765,12 @@ func (ex *Exec) runBlock(fr *frame) {
 		}
 		ex.steps++
 		if ex.steps > ex.eng.MaxSteps {
+			ex.cur, ex.curFr = in, fr
+			where := ex.fnName()
+			if fr.caller != nil {
+				where += " <- " + fr.caller.fn.String()
+			}
+			ex.res.Truncated = append(ex.res.Truncated, "step budget exhausted in "+where+" at "+ex.pos())
 			panic(pathEnd{"budget"})
 		}
 		ex.cur = in
